@@ -323,7 +323,10 @@ def _find_common_subexps(block):
             new_args = tuple(_const_to_int(w, const_dict) for w in net.args)
         else:
             new_args = tuple(sorted((_const_to_int(w, const_dict) for w in net.args), key=hash))
-        net_sub = LogicNet(net[0], net[1], new_args, t)  # don't care about dests
+        # the dest wires themselves don't matter, but nets that truncate their result to
+        # different bitwidths do not compute the same value
+        dest_widths = tuple(len(d) for d in net.dests)
+        net_sub = LogicNet(net[0], (net[1], dest_widths), new_args, t)
         if net_sub in net_table:
             net_table[net_sub].append(net)
         else:
